@@ -347,6 +347,8 @@ pub fn jobs(prop: &str, tier: &str) -> Vec<Job> {
                     c.use_large = true;
                 }
             });
+            // dictionary-coded storage with hundreds of entries / more than 64 KiB of dictionary / three generations
+            dict_seed_jobs(&mut out, &[6, 7], if thorough { 2 } else { 1 });
         }
         "C06" => {
             use crate::m_huff::*;
@@ -421,7 +423,6 @@ pub fn jobs(prop: &str, tier: &str) -> Vec<Job> {
                     add(seed, Alphabet::Relative, 1, 1);
                 }
             }
-            dict_seed_jobs(&mut out, &[6, 7], if thorough { 2 } else { 1 });
         }
         "C08" => {
             let mut c = LifeCfg::new("C08");
